@@ -32,3 +32,14 @@ static int l1sched_cfg_pchan_comb_ind(struct l1sched_state *sched, uint8_t tn, e
 /* static functions of sched_trx.c called after the lookup (outside the verified prefix; the replay harness defines them) */
 static void l1sched_a5_burst_enc(struct l1sched_lchan_state *lchan, struct l1sched_burst_req *br);
 static void l1sched_a5_burst_dec(struct l1sched_lchan_state *lchan, struct l1sched_burst_ind *bi);
+
+/* OSMO_ASSERT of libosmocore (osmocom/core/utils.h): a failed assertion ends in osmo_panic(), which does not return.  Declared here in the
+ * library's own form when the headers above did not bring it: for CVC a call of osmo_panic is the obligation `call.osmo_panic_unreachable`
+ * (engine/cvc/interp.py: _noreturn), the native harnesses define osmo_panic() to abort. */
+#ifndef OSMO_ASSERT
+void osmo_panic(const char *fmt, ...);
+#define OSMO_ASSERT(exp)    \
+	if (!(exp)) { \
+		osmo_panic("Assert failed %s %s:%d\n", #exp, __FILE__, __LINE__); \
+	}
+#endif
